@@ -18,7 +18,7 @@ let dash_join l = String.concat "," l
 
 let () =
   register "kern" (fun a -> match a with
-    | [_comp; _style; _a; _b; r; bsz; tids; bids] ->
+    | _comp :: _style :: _a :: _b :: r :: bsz :: tids :: bids :: _params ->
         let (rshape, rdata) = getA r and bsz = getI bsz and tids = getL tids and bids = getL bids in
         let n = zprod rshape in
         let sched = List.combine tids bids in
